@@ -164,6 +164,7 @@ type c03Msg struct {
 	head    bool
 	pre     int // bytes of informational (1xx) responses in front of the final one
 	n1xx    int
+	special string
 }
 
 // headEnd is the offset of the first body byte of the final response.
@@ -171,8 +172,12 @@ func (m c03Msg) headEnd() int {
 	return m.pre + strings.Index(m.stream[m.pre:], "\r\n\r\n") + 4
 }
 
-func c03GenMsg(r *rand.Rand, maxBody int) c03Msg {
+func c03GenMsg(r *rand.Rand, maxBody int) c03Msg { return c03GenMsgS(r, maxBody, "") }
+
+// c03GenMsgS: special = "json" (body {"v":"…"}, application/json) or "ascii" (text/plain, ASCII).
+func c03GenMsgS(r *rand.Rand, maxBody int, special string) c03Msg {
 	var m c03Msg
+	m.special = special
 	m.code = verifh.Pick(r, []int{200, 200, 200, 200, 201, 404, 500, 206})
 	n := 0
 	switch r.Intn(6) {
@@ -189,7 +194,16 @@ func c03GenMsg(r *rand.Rand, maxBody int) c03Msg {
 	}
 	var hdr []string
 	add := func(k, v string) { hdr = append(hdr, k+": "+v) }
-	add("Content-Type", "application/octet-stream")
+	switch special {
+	case "json":
+		body = `{"v":"` + verifh.RandBytes(r, n, "abcdefghijklmnopqrstuvwxyz") + `"}`
+		add("Content-Type", "application/json")
+	case "ascii":
+		body = verifh.RandBytes(r, n, "abcdefghijklmnopqrstuvwxyz ,.\n")
+		add("Content-Type", "text/plain")
+	default:
+		add("Content-Type", "application/octet-stream")
+	}
 	if r.Intn(3) == 0 {
 		add("X-Pad", strings.Repeat("p", r.Intn(40)))
 	}
@@ -319,18 +333,28 @@ type c03Obs struct {
 }
 
 // c03RunClient performs the two requests with a fresh real client over the given dialer.
-func c03RunClient(dial func(ctx context.Context, network, addr string) (net.Conn, error), dials func() int, head bool, stream bool, readSize int, early bool, unstick func()) (o c03Obs) {
+func c03RunClient(dial func(ctx context.Context, network, addr string) (net.Conn, error), dials func() int, head bool, stream bool, readSize int, early bool, unstick func(), cc *c03Caller) (o c03Obs) {
 	if early {
 		stream = true
 	}
-	c := C().SetDial(dial).DisableAutoDecode().SetTimeout(4 * time.Second)
+	if stream {
+		cc = nil
+	}
+	c := C().SetDial(dial).SetTimeout(4 * time.Second)
+	cc.prepClient(c)
 	c.GetTransport().DisableCompression = true
+	first := true
 	if stream {
 		c.DisableAutoReadResponse()
 	}
 	defer c.GetTransport().CloseIdleConnections()
 	do := func() (string, string) {
 		rq := c.R()
+		isFirst := first
+		first = false
+		if isFirst {
+			cc.prepRequest(rq)
+		}
 		var resp *Response
 		var err error
 		if head {
@@ -376,11 +400,21 @@ func c03RunClient(dial func(ctx context.Context, network, addr string) (net.Conn
 				}
 			}
 			resp.Body.Close()
+		} else if isFirst && cc.savesBody() {
+			if resp.Err != nil {
+				return "fail", "resp.Err: " + resp.Err.Error()
+			}
+			body = cc.saved()
 		} else {
 			if resp.Err != nil {
 				return "fail", "resp.Err: " + resp.Err.Error()
 			}
 			body = resp.Bytes()
+			if isFirst {
+				if note := cc.resultNote(resp.StatusCode, body); note != "" {
+					return "ok code=" + strconv.Itoa(resp.StatusCode) + " body=" + verifh.Hex(string(body)) + note, ""
+				}
+			}
 			// re-read after auto-read must see the same bytes
 			again, rerr := io.ReadAll(resp.Body)
 			if rerr != nil || !bytes.Equal(again, body) {
@@ -434,12 +468,14 @@ func TestVerif_C03_h1cut(t *testing.T) {
 	counts := map[string]int{}
 	cnt := func(k string) { s.Count(k); counts[k]++ }
 	failures := 0
+	tmpDir := t.TempDir()
 	for i := 0; i < nMsgs; i++ {
 		maxBody := 120
 		if i%10 == 9 {
 			maxBody = 9000 // crosses the 4096-byte read buffer
 		}
-		m := c03GenMsg(r, maxBody)
+		special := verifh.Pick(r, []string{"", "", "", "", "json", "ascii"})
+		m := c03GenMsgS(r, maxBody, special)
 		all := verifh.Thorough() && len(m.stream) <= 2048 && i%3 == 0
 		cuts := c03Cuts(r, m.stream, all, verifh.N(6, 14))
 		type variant struct {
@@ -508,7 +544,16 @@ func TestVerif_C03_h1cut(t *testing.T) {
 			}
 			nw := &c03Net{scripts: [][]c03Step{first, {{data: c03SecondWire}}}, seg: verifh.Pick(r, []int{0, 0, 1, 7})}
 			stream := r.Intn(3) == 0
-			obs := c03RunClient(nw.dial, func() int { nw.mu.Lock(); defer nw.mu.Unlock(); return nw.dials }, m.head, stream, verifh.Pick(r, []int{1, 5, 64, 4096}), v.mode == "early", nw.closeAll)
+			cc := &c03Caller{mode: c03PickMode(r, m.special, m.framing, len(m.body)), dir: tmpDir}
+			if (m.framing == "close" && cc.mode == "result") || m.code == 101 {
+				cc.mode = "auto" // (the "body" of a 101 is the raw connection: nothing to save)
+			}
+			obs := c03RunClient(nw.dial, func() int { nw.mu.Lock(); defer nw.mu.Unlock(); return nw.dials }, m.head, stream, verifh.Pick(r, []int{1, 5, 64, 4096}), v.mode == "early", nw.closeAll, cc)
+			callerName := cc.name()
+			if stream || v.mode == "early" {
+				callerName = "stream"
+			}
+			cnt("caller:" + callerName)
 			nw.closeAll()
 			impl := obs.first + " dials=" + strconv.Itoa(obs.dials)
 			// property oracle, independent of the model
@@ -573,7 +618,7 @@ func TestVerif_C03_h1cut(t *testing.T) {
 			if mode == "reset" {
 				mode = "eof"
 			}
-			human := fmt.Sprintf("%s framing=%s len=%d %s cut k=%d then %s (stream caller=%v) -> %s | err=%s", mtag, m.framing, len(wire), v.tag, v.k, v.mode, stream, impl, obs.firstErr)
+			human := fmt.Sprintf("%s framing=%s len=%d %s cut k=%d then %s (caller=%s) -> %s | err=%s", mtag, m.framing, len(wire), v.tag, v.k, v.mode, callerName, impl, obs.firstErr)
 			if why != "" {
 				human += " ORACLE: " + why
 			}
@@ -584,7 +629,7 @@ func TestVerif_C03_h1cut(t *testing.T) {
 	if failures >= 12 {
 		return
 	}
-	for _, need := range []string{"framing:len", "framing:chunked", "framing:close", "framing:none", "mode:eof", "mode:reset", "mode:hold", "mode:early", "corrupt-size", "corrupt-crlf", "early-partial", "first-ok", "first-fail", "reused"} {
+	for _, need := range []string{"framing:len", "framing:chunked", "framing:close", "framing:none", "mode:eof", "mode:reset", "mode:hold", "mode:early", "corrupt-size", "corrupt-crlf", "early-partial", "caller:transformer", "caller:output", "caller:outputfile", "caller:callback", "caller:result", "caller:dump", "caller:autodecode", "caller:retry", "caller:stream", "first-ok", "first-fail", "reused"} {
 		if counts[need] == 0 {
 			t.Errorf("C03/h1cut never reached bucket %q", need)
 		}
@@ -711,6 +756,7 @@ func TestVerif_C03_h1tcp(t *testing.T) {
 	reached := map[string]int{}
 	id := 0
 	failures := 0
+	tmpDir := t.TempDir()
 	for i := 0; i < nMsgs && failures < 12; i++ {
 		m := c03GenMsg(r, 300)
 		if i%8 == 7 {
@@ -734,7 +780,12 @@ func TestVerif_C03_h1tcp(t *testing.T) {
 				return d.DialContext(ctx, "tcp", addr)
 			}
 			stream := r.Intn(3) == 0
-			obs := c03RunClient(dial, p.count, m.head, stream, verifh.Pick(r, []int{1, 64, 4096}), false, func() { p.next(nil) })
+			cc := &c03Caller{mode: c03PickMode(r, "", m.framing, len(m.body)), dir: tmpDir}
+			if m.code == 101 {
+				cc.mode = "auto"
+			}
+			obs := c03RunClient(dial, p.count, m.head, stream, verifh.Pick(r, []int{1, 64, 4096}), false, func() { p.next(nil) }, cc)
+			s.Count("caller:" + cc.name())
 			ok, why := true, ""
 			complete := k == len(m.stream) && m.n1xx <= 5
 			if strings.HasPrefix(obs.first, "ok") {
@@ -771,7 +822,7 @@ func TestVerif_C03_h1tcp(t *testing.T) {
 			reached["mode:"+mode]++
 			s.Count("framing:" + m.framing)
 			s.Count("mode:" + mode)
-			human := fmt.Sprintf("tcp framing=%s len=%d cut k=%d then %s -> %s dials=%d err=%s", m.framing, len(m.stream), k, mode, obs.first, obs.dials, obs.firstErr)
+			human := fmt.Sprintf("tcp framing=%s len=%d cut k=%d then %s (caller=%s) -> %s dials=%d err=%s", m.framing, len(m.stream), k, mode, cc.name(), obs.first, obs.dials, obs.firstErr)
 			if why != "" {
 				human += " ORACLE: " + why
 			}
